@@ -194,6 +194,52 @@ Definition sys_run (size : nat) (tw : N) (maxsize elast : nat) (ops : list sop) 
 
 Definition sys_init (nthreads : nat) : sys := mkSys [] [] (repeat TIdle nthreads).
 
+(* ---------------- what the ethash mutex is for ---------------- *)
+
+(** In [sys_step] the whole of getOrDefault (lookup, factory, insert) is ONE step [OCompute]: that is the meaning of
+    `LockGuard lock(GetEthashCacheMutex())` around it in progPowHashImpl.  The following variant documents what
+    happens WITHOUT that serialisation, for an application-supplied cache that remembers only the last epoch
+    (a legal EthashCacheI): its lookup, and the two stores of its insert, become separate steps of each thread. *)
+Record lastc := mkLastc { lc_ep : option Ep; lc_ent : option Ent }.
+
+Inductive uthr :=
+| UIdle
+| UBuilt (h : Hdr) (e : Ent)      (* lookup missed, factory returned e, nothing stored yet *)
+| UWroteEp (h : Hdr) (e : Ent)    (* the epoch field of the slot is written, the entry not yet *)
+| UDone (h : Hdr) (v : V).
+
+Record usys := mkUsys { ucache : lastc; uthreads : list uthr }.
+
+Inductive uop := UStart (t : nat) (h : Hdr) | UWriteEp (t : nat) | UWriteEnt (t : nat).
+
+Definition usys_step (o : uop) (s : usys) : usys :=
+  match o with
+  | UStart t h =>
+    match nth_error (uthreads s) t with
+    | Some UIdle | Some (UDone _ _) =>
+      match lc_ep (ucache s), lc_ent (ucache s) with
+      | Some e, Some x =>
+        if ep_eqb e (ep h) then mkUsys (ucache s) (upd t (fun _ => UDone h (hash h x)) (uthreads s))
+        else mkUsys (ucache s) (upd t (fun _ => UBuilt h (mk (ep h))) (uthreads s))
+      | _, _ => mkUsys (ucache s) (upd t (fun _ => UBuilt h (mk (ep h))) (uthreads s))
+      end
+    | _ => s
+    end
+  | UWriteEp t =>
+    match nth_error (uthreads s) t with
+    | Some (UBuilt h e) => mkUsys (mkLastc (Some (ep h)) (lc_ent (ucache s))) (upd t (fun _ => UWroteEp h e) (uthreads s))
+    | _ => s
+    end
+  | UWriteEnt t =>
+    match nth_error (uthreads s) t with
+    | Some (UWroteEp h e) => mkUsys (mkLastc (lc_ep (ucache s)) (Some e)) (upd t (fun _ => UDone h (hash h e)) (uthreads s))
+    | _ => s
+    end
+  end.
+
+Definition usys_run (ops : list uop) (s : usys) : usys := fold_left (fun s o => usys_step o s) ops s.
+Definition usys_init (n : nat) : usys := mkUsys (mkLastc None None) (repeat UIdle n).
+
 (* ---------------- VbkBlock::hash_ ---------------- *)
 
 Record blk := mkBlk { content : Hdr; memo : V }.
